@@ -245,6 +245,12 @@ def decodes(kind, path, bits, data, dt):
         else:
             raise InfraError("sci oracle asked for %d bits" % bits)
         res = any(t == "obs" for t, _ in r.log)
+    if path == "rx" and bits in (16, 24) and not res and not r.errs:
+        # every 16- / 24-bit forward frame decodes to SOME command (property C01: unknown frames come back as a
+        # generic command): a receiver that does not deliver one has dropped an observed command.  The reference
+        # expects the delivery; the probe's finding is kept for correspond() to report with the frame.
+        _probe_errors.append((k, ["not delivered (the frame was dropped)"]))
+        res = True
     if r.errs:
         # the real receiver let an exception escape data_received on ONE well-formed frame: that is the property's
         # "no input raises an internal error", not an infrastructure problem - kept for correspond() to report
@@ -753,8 +759,8 @@ def correspond(ctx, corr):
                      {"receiver": kind, "frame": "%d bits, value %#x, seen as %s" % (
                          bits, data, "an observed frame" if path == "rx" else "a transmit confirmation"),
                       "device type remembered from the preceding EnableDeviceType": dt},
-                     "the frame is delivered or set aside; no exception leaves data_received", " ".join(errs),
-                     "a single well-formed frame makes the receiver raise")
+                     "the frame is delivered; no exception leaves data_received", " ".join(errs),
+                     "a single well-formed frame makes the receiver raise or is dropped")
 
 
 def _rerun(ctx, inp):
